@@ -31,7 +31,7 @@ ASSUMPTIONS = ['fingerprints use public accessors only (values, dtype, every met
                'file-like arguments are fingerprinted by content, not by stream position']
 BUDGET = {
     'quick': dict(examples=2400, time_s=420, shrink=True, shrink_cap_s=60),
-    'thorough': dict(examples=40000, time_s=3000, shrink_cap_s=120),
+    'thorough': dict(examples=40000, time_s=3000, shrink_cap_s=120, fuzz=dict(workers=8, runs=6000, max_s=300)),
 }
 
 SCALES = ['linear', 'log', 'logicle']
